@@ -15,7 +15,8 @@ fn plen_sel(size: u64, kind: u64, line: &[u8]) -> u64 {
         0 => line.first().copied().unwrap_or(0) as u64,
         1 => size + 1,
         2 => 0,
-        _ => line.len() as u64,
+        3 => line.len() as u64,
+        k => (k - 4).wrapping_add(line.first().copied().unwrap_or(0) as u64),
     }
 }
 fn enc_stat(out: &mut Vec<i128>, r: &Result<(), std::io::Error>) {
